@@ -228,4 +228,10 @@ come from is regenerated from the source. -/
 theorem C02_skeleton_Encrypt : Sso.Generated.skel_aead_Encrypt =
     ["call:Lock", "defer:Unlock", "defer{", "call:recover", "if{", "call:Errorf", "}", "}", "call:GenerateNonce", "call:Seal", "call:append", "return"] := by decide
 
+/-- Tie (T1): the cipher is built from the **whole** secret (`NewAES…(secret)` on the slice as given, no copy, no truncation), and
+`Decrypt` splits off the nonce and opens with it. -/
+theorem C02_skeleton_cipher :
+    Sso.Generated.skel_aead_NewMiscreantCipher = ["call:NewAEAD", "if{", "return", "}", "return"] ∧
+    Sso.Generated.skel_aead_Decrypt = ["call:Lock", "defer:Unlock", "call:len", "if{", "call:len", "call:Errorf", "return", "}", "call:len", "call:Open", "if{", "return", "}", "return"] := by decide
+
 end Sso.Seal
